@@ -213,6 +213,12 @@ class CounterMachine(object):
             if u.get("within"):
                 self.within[u["name"]] = u["within"]
 
+    def declare(self, name, within=None):
+        """\\newcounter{name}[within] in the document body: the counter exists (at 0) from here on"""
+        self.value[name] = 0
+        if within:
+            self.within[name] = within
+
     # -- structure --------------------------------------------------------
     def dependants(self, c):
         out = []
@@ -866,6 +872,14 @@ class _Emitter(object):
         self.cm.appendix()
         self.w("\\appendix")
 
+    def b_newctr(self, b):
+        self.features.add("user-counter-declared-in-body" + ("-within" if b.get("within") else ""))
+        self.cm.declare(b["name"], b.get("within"))
+        if b.get("within"):
+            self.w("\\newcounter{%s}[%s]" % (b["name"], b["within"]))
+        else:
+            self.w("\\newcounter{%s}" % b["name"])
+
     def b_ctr(self, b):
         op, c, v = b["op"], b["c"], b.get("v", 0)
         self.features.add("ctr-" + op)
@@ -1352,6 +1366,16 @@ def documents(features=ALL_FEATURES, exclude=(), max_items=14, classes=("article
                    "sep": 1}
             pos = draw(st.sampled_from([len(body), len(body), 0, draw(st.integers(0, len(body)))]))
             body.insert(pos, bib)
+        if "counters" in F and "user-counter" not in X and len(body) >= 2 and draw(st.integers(0, 3)) == 0:
+            # a counter declared in the body, after its parent may already have been stepped,
+            # then stepped/set at later positions
+            i = draw(st.integers(1, len(body) - 1))
+            w = draw(st.sampled_from(["section", "section", "subsection", None] + (["chapter"] if book else [])))
+            body.insert(i, {"k": "newctr", "name": "ucl", "within": w, "sep": 1})
+            for _ in range(draw(st.integers(1, 4))):
+                j = draw(st.integers(i + 1, len(body)))
+                body.insert(j, {"k": "ctr", "op": draw(st.sampled_from(["step", "step", "step", "set"])), "c": "ucl",
+                                "v": draw(st.integers(0, 7)), "sep": 1})
         doc = {"cls": cls, "secnumdepth": depth,
                "title": draw(inlines(1, True, False, 2)) if ("title" in F and draw(st.booleans())) else None,
                "thms": thms, "ucounters": ucounters, "body": body}
@@ -1412,6 +1436,10 @@ def finalize(doc, exclude=()):
     cm = CounterMachine(doc["cls"], doc["secnumdepth"], doc.get("thms") or [], doc.get("ucounters") or [])
     body = []
     for b in doc["body"]:
+        if b["k"] == "newctr":
+            if b["name"] in cm.value or (b.get("within") and b["within"] not in cm.value):
+                continue
+            cm.declare(b["name"], b.get("within"))
         if b["k"] == "ctr":
             c = b["c"]
             if c not in cm.value:
